@@ -7,7 +7,7 @@ A *plan* (JSON-able dict) fixes configuration, operations and faults; the
 import random
 
 from dsim import boot
-from dsim.world import World, Chooser, set_world
+from dsim.world import World, Chooser, set_world, CallbackHang
 from dsim.net import Net
 from dsim import dbusmod
 
@@ -106,6 +106,9 @@ def gen_plan(ch, prof):
         for _ in range(nbundles[side]):
             size = pick_size(ch, side + '.len', seg, plan['chunk_size'], prof.get('big', 65536))
             size = min(size, prof.get('max_segments', 600) * seg, prof.get('max_len', 1 << 20))
+            if plan['chunk_size'] < 1000:
+                # the receiver re-parses its buffer per read: keep reads-per-message bounded
+                size = min(size, plan['chunk_size'] * 300)
             if size == 0 and not prof.get('allow_zero', True):
                 size = 1
             when = ch.weighted(side + '.when', (3, 3, 2))
@@ -120,14 +123,58 @@ def gen_plan(ch, prof):
     npops = ch.pick('npop', 4)
     for _ in range(npops):
         ops.append(dict(t=1000 * ch.pick('pop.t', 6000), node=ch.choice('pop.n', ('A', 'P')), op='pop'))
-    nq = ch.pick('nquery', 4)
+    nq = ch.pick('nquery', prof.get('max_queries', 3) + 1)
     for _ in range(nq):
         ops.append(dict(t=1000 * ch.pick('q.t', 6000), node=ch.choice('q.n', ('A', 'P')),
-                        op=ch.choice('q.op', ('idle', 'txq', 'rxq', 'params', 'state'))))
-    plan['ops'] = sorted(ops, key=lambda op: op['t'])
-    plan['faults'] = []
+                        op=ch.choice('q.op', ('idle', 'txq', 'rxq', 'params', 'state', 'popdup', 'idle', 'txq'))))
+    if prof.get('terminate'):
+        nterm = 1 + ch.weighted('nterm', (5, 2, 1))
+        for _ in range(nterm):
+            kinds = prof.get('term_kinds', ('terminate', 'terminate', 'terminate', 'shutdown', 'close'))
+            top = dict(node=ch.choice('term.n', ('A', 'P')), op=ch.choice('term.k', kinds))
+            if top['op'] == 'terminate':
+                top['reason'] = ch.choice('term.r', prof.get('term_reasons', (0, 0, 1, 3, 5)))
+            _place(ch, 'term', top, prof)
+            ops.append(top)
+    faults = []
+    if prof.get('faults'):
+        nflt = 1 + ch.weighted('nflt', (5, 2, 1))
+        for _ in range(nflt):
+            kinds = prof.get('fault_kinds', ('stall', 'stall', 'slow', 'reset', 'kill', 'blackhole'))
+            flt = dict(kind=ch.choice('flt.k', kinds))
+            if flt['kind'] in ('stall', 'slow'):
+                flt['dur'] = ch.choice('flt.dur', (1000, 20000, 300000, 2 * SEC, 7 * SEC))
+            if flt['kind'] == 'stall':
+                flt['dir'] = ch.choice('flt.dir', (None, 'a2b', 'b2a'))
+            if flt['kind'] in ('slow', 'kill'):
+                flt['node'] = ch.choice('flt.n', ('A', 'P'))
+            _place(ch, 'flt', flt, prof)
+            faults.append(flt)
+    timed = sorted((op for op in ops if 't' in op), key=lambda op: op['t'])
+    plan['ops'] = timed + [op for op in ops if 't' not in op]
+    plan['faults'] = faults
     plan['horizon'] = prof.get('horizon', 60 * SEC)
     return plan
+
+
+def _place(ch, label, item, prof):
+    ''' Place an operation or fault at a time or on a history trigger so that
+    it lands inside protocol activity (DESIGN 2.7). '''
+    mode = ch.weighted(label + '.place', (3, 4, 3, 2))
+    if mode == 0:
+        item['t'] = 1000 * ch.pick(label + '.t', 6000)
+    elif mode == 1:
+        # after the n-th chunk written by one side (mid-segment, awaiting ACK, ...)
+        item['after'] = ['tcp-send', ch.choice(label + '.side', ('A', 'P')), 1 + ch.pick(label + '.nth', 40)]
+        item['delay'] = ch.choice(label + '.delay', (0, 0, 30, 300, 3000))
+    elif mode == 2:
+        member = ch.choice(label + '.sig', ('send_bundle_started', 'recv_bundle_started', 'recv_bundle_finished',
+                                            'send_bundle_finished', 'recv_bundle_intermediate', 'session_state_changed'))
+        item['after'] = ['dbus-signal', ch.choice(label + '.side', ('A', 'P')), 1 + ch.pick(label + '.nth', 3), member]
+        item['delay'] = ch.choice(label + '.delay', (0, 0, 30, 300, 3000))
+    else:
+        # very early: around contact / session negotiation
+        item['t'] = ch.pick(label + '.early', 1500)
 
 
 class Harness:
@@ -160,6 +207,8 @@ class Harness:
         self.popped = {'A': [], 'P': []}   # (seq, bid str, data)
         self.calls = []                    # (seq, node, op, result or ('error', text))
         self.deferred = {'A': [], 'P': []}
+        self.hang = False
+        self.end_time = None
         for side in ('P', 'A'):
             self.net.add_host('h' + side, ADDR[side])
             self.bus[side] = dbusmod.SimBus(self.wld, 'bus' + side)
@@ -237,6 +286,16 @@ class Harness:
                     data = self.call(side, path, 'recv_bundle_pop_data', bid)
                     if not (isinstance(data, tuple) and data and data[0] == 'error'):
                         self.popped[side].append((wld.seq, str(bid), bytes(data)))
+        elif kind == 'popdup':
+            ret = self.call(side, path, 'recv_bundle_get_queue')
+            if isinstance(ret, list) and ret:
+                bid = ret[0]
+                data = self.call(side, path, 'recv_bundle_pop_data', bid)
+                if not (isinstance(data, tuple) and data and data[0] == 'error'):
+                    self.popped[side].append((wld.seq, str(bid), bytes(data)))
+                again = self.call(side, path, 'recv_bundle_pop_data', bid)
+                if not (isinstance(again, tuple) and again and again[0] == 'error'):
+                    self.popped[side].append((wld.seq, str(bid), bytes(again)))
         elif kind == 'idle':
             self.call(side, path, 'is_sess_idle')
         elif kind == 'txq':
@@ -326,15 +385,24 @@ class Harness:
             self._schedule(op, self.do_op)
         for flt in self.plan.get('faults', ()):
             self._schedule(flt, self.do_fault)
-        wld.run(until_us=self.plan.get('horizon', 60 * SEC))
+        try:
+            wld.run(until_us=self.plan.get('horizon', 60 * SEC))
+        except CallbackHang:
+            self.hang = True
+            wld.cur = None
+            wld.log('callback-hang')
+            return self
         # final drain by the users: pop everything still queued
         self.end_time = wld.now
+        self.final_idle = {}
         for side in ('A', 'P'):
             path = self.contact[side]
             if path is None or not self.node[side].alive:
                 continue
             if (side, path) in [(key[0], key[1]) for key in self.bus[side].objects]:
                 self.do_op(dict(node=side, op='pop'))
+                self.do_op(dict(node=side, op='idle'))
+                self.final_idle[side] = self.calls[-1]
         return self
 
 
